@@ -335,6 +335,10 @@ func errKind(err error, fail error) string {
 		return "ioerr"
 	case err == nil:
 		return "nil"
+	case err == io.ErrUnexpectedEOF:
+		return "uxeof"
+	case err == io.ErrClosedPipe:
+		return "closedpipe"
 	}
 	return "other:" + err.Error()
 }
